@@ -134,13 +134,111 @@ theorem substL_err (test : Expr → Bool) (other : Expr) : ∀ (es : ExprList) (
         · cases h
 end
 
+mutual
+/-- the capture-avoiding variable replacement fails only as the constructors of the changed parents do -/
+theorem substV_err (nm : String) (other : Expr) : ∀ (e : Expr) (x : Err), substV nm other e = .error x → Doc3 x
+  | .lit .., x, h => by simp [substV] at h
+  | .this .., x, h => by simp [substV] at h
+  | .var .., x, h => by simp [substV] at h
+  | .set t vs, x, h => by
+      simp only [substV] at h
+      rcases bind_err h with h1 | ⟨vs', _, h⟩
+      · exact substVL_err nm other vs x h1
+      · split at h
+        · cases h
+        · rcases bind_err h with h2 | ⟨_, _, h⟩
+          · exact Or.inl (castList_err h2)
+          · cases h
+  | .range t lo hi a b, x, h => by
+      simp only [substV] at h
+      rcases bind_err h with h1 | ⟨lo', _, h⟩
+      · exact substV_err nm other lo x h1
+      · rcases bind_err h with h2 | ⟨hi', _, h⟩
+        · exact substV_err nm other hi x h2
+        · split at h
+          · cases h
+          · rcases bind_err h with h3 | ⟨_, _, h⟩
+            · exact Or.inl (castE_err h3)
+            · rcases bind_err h with h4 | ⟨_, _, h⟩
+              · exact Or.inl (castE_err h4)
+              · cases h
+  | .quant t q y d b, x, h => by
+      simp only [substV] at h
+      split at h
+      · cases h
+      rcases bind_err h with h1 | ⟨d', _, h⟩
+      · exact substV_err nm other d x h1
+      · rcases bind_err h with h2 | ⟨b', _, h⟩
+        · exact substV_err nm other b x h2
+        · split at h
+          · cases h
+          · rcases mkQuant_err h with r | r
+            · exact Or.inl r
+            · exact Or.inr (Or.inl r)
+  | .un t op a, x, h => by
+      simp only [substV] at h
+      rcases bind_err h with h1 | ⟨a', _, h⟩
+      · exact substV_err nm other a x h1
+      · split at h
+        · cases h
+        · rcases mkUn_err h with r | r
+          · exact Or.inl r
+          · exact Or.inr (Or.inr r)
+  | .bin t op a b, x, h => by
+      simp only [substV] at h
+      rcases bind_err h with h1 | ⟨a', _, h⟩
+      · exact substV_err nm other a x h1
+      · rcases bind_err h with h2 | ⟨b', _, h⟩
+        · exact substV_err nm other b x h2
+        · split at h
+          · cases h
+          · rcases mkBin_err h with r | r
+            · exact Or.inl r
+            · exact Or.inr (Or.inr r)
+  | .call t f as, x, h => by
+      simp only [substV] at h
+      rcases bind_err h with h1 | ⟨as', _, h⟩
+      · exact substVL_err nm other as x h1
+      · split at h
+        · cases h
+        · rcases mkCall_err h with r | r
+          · exact Or.inl r
+          · exact Or.inr (Or.inr r)
+  | .field t m n, x, h => by
+      simp only [substV] at h
+      rcases bind_err h with h1 | ⟨m', _, h⟩
+      · exact substV_err nm other m x h1
+      · split at h
+        · cases h
+        · exact Or.inl (mkFieldT_err h)
+  | .index t a i, x, h => by
+      simp only [substV] at h
+      rcases bind_err h with h1 | ⟨a', _, h⟩
+      · exact substV_err nm other a x h1
+      · rcases bind_err h with h2 | ⟨i', _, h⟩
+        · exact substV_err nm other i x h2
+        · split at h
+          · cases h
+          · exact Or.inl (mkIndexT_err h)
+theorem substVL_err (nm : String) (other : Expr) : ∀ (es : ExprList) (x : Err), substVL nm other es = .error x → Doc3 x
+  | .nil, x, h => by simp [substVL] at h
+  | .cons e es, x, h => by
+      simp only [substVL] at h
+      rcases bind_err h with h1 | ⟨_, _, h⟩
+      · exact substV_err nm other e x h1
+      · rcases bind_err h with h2 | ⟨_, _, h⟩
+        · exact substVL_err nm other es x h2
+        · cases h
+end
+
+
 theorem Pred.replaceVar_err {p : Pred} {a : String} {other : Expr} {x : Err} (h : p.replaceVar a other = .error x) : Doc3 x := by
   unfold Pred.replaceVar at h
   cases p with
   | expr e =>
     simp only at h
     rcases bind_err h with h1 | ⟨e', _, h⟩
-    · exact substE_err _ _ e x h1
+    · exact substV_err _ _ e x h1
     · split at h
       · cases h
       · exact Or.inl (mkPred_err h)
